@@ -152,6 +152,13 @@ impl Prop for C03 {
     fn cases(&self, tier: Tier) -> u64 {
         tier.pick(30_000, 600_000)
     }
+    fn fuzz_plan(&self, tier: Tier) -> Vec<(&'static str, u64)> {
+        if tier == Tier::Thorough {
+            vec![("prop", 150_000)]
+        } else {
+            vec![]
+        }
+    }
     fn choice_len(&self) -> usize {
         4096
     }
